@@ -41,6 +41,8 @@ EXTRA_LEAVES = [
     {"k": "Loc", "shape": [2]}, {"k": "TriAffine", "dim": 2, "lower": False}, {"k": "Planar", "dim": 2, "cond": None, "slope": 1.0},
     {"k": "Coupling", "dim": 2, "cond": None, "tr": "rqs"}, {"k": "BNAF", "dim": 2, "cond": 2, "depth": 2, "bd": 2},
     {"k": "BNAF", "dim": 1, "cond": None, "depth": 0, "bd": 1},
+    # tanh(max_val) rounds to exactly 1.0 from max_val ~ 7.9 (float32) / 18.4 (float64): the tanh branch's inverse then sits on arctanh's pole
+    {"k": "LeakyTanh", "shape": [], "max_val": 8}, {"k": "LeakyTanh", "shape": [2], "max_val": 10}, {"k": "LeakyTanh", "shape": [], "max_val": 20},
 ]
 
 
@@ -93,8 +95,8 @@ def enumerate_cases(tier, seed):
     # "for every distribution": the named families on their own and as mixtures whose components are far apart (a component
     # with log-density -inf must not poison the gradient of a finite mixture log-density)
     for fam in FAMILIES:
-        for variant, seps in (("single", [0]), ("mix", [1, 50, 200, 10000])):
-            if fam == "MultivariateNormal" and variant == "mix":
+        for variant, seps in (("single", [0]), ("mix", [1, 50, 200, 10000]), ("mix-wide-weights", [1, 50])):
+            if fam == "MultivariateNormal" and variant != "single":
                 continue
             for sep in seps:
                 for x64 in (True, False):
@@ -126,6 +128,9 @@ def build_family(fam, variant, sep):
             "Cauchy": lambda: eqx.filter_vmap(D.Cauchy)(locs, scs), "StudentT": lambda: eqx.filter_vmap(D.StudentT)(jnp.asarray([3.0, 1.5]), locs, scs),
             "Laplace": lambda: eqx.filter_vmap(D.Laplace)(locs, scs), "Exponential": lambda: eqx.filter_vmap(D.Exponential)(jnp.asarray([1.0, 1.0 + sep])),
             "Logistic": lambda: eqx.filter_vmap(D.Logistic)(locs, scs)}[fam]()
+    if variant == "mix-wide-weights":  # valid positive weights whose ratio overflows a softmax evaluated without the log-sum-exp shift
+        big = 1e25 if jnp.zeros(()).dtype == jnp.float32 else 1e200
+        return D.VmapMixture(comp, jnp.asarray([1.0 / big, big]))
     return D.VmapMixture(comp, jnp.asarray([1.0, 2.0]))
 
 
